@@ -481,4 +481,116 @@ theorem networkSrc_eq (all : Nat → NTask) (tasks : List Nat) (hst : ∀ i ∈ 
   obtain ⟨i, hi, rfl⟩ := List.mem_map.1 hl
   simp only [hst i hi]
 
+/-! ### reading the network lines -/
+
+theorem nodeLabel_oneLine (idt name : Str) (hi : IdOk idt) (hn : NameOk name) : '\n' ∉ nodeLabel idt name := by
+  have h1 := hi.notin '\n' (by decide) (by decide)
+  have h2 := hn.qname.1
+  simp [nodeLabel_eq, lit, h1, h2]
+
+theorem readEdge_start (idt name : Str) (hi : IdOk idt) (hn : NameOk name) :
+    readEdge (lit "  0((Start)) --> " ++ nodeLabel idt name) = some (.start, .task idt (qname name)) := by
+  have h1 : startsWith (lit "  ") (lit "  0((Start)) --> " ++ nodeLabel idt name) = true := by
+    simp [startsWith, lit, List.isPrefixOf]
+  have h2 : startsWith (lit "0((Start)) --> ") ((lit "  0((Start)) --> " ++ nodeLabel idt name).drop 2) = true := by
+    simp [startsWith, lit, List.isPrefixOf]
+  have h3 : ((lit "  0((Start)) --> " ++ nodeLabel idt name).drop 2).drop 15 = nodeLabel idt name := by
+    simp [lit]
+  simp only [readEdge, h1, h2, h3, readNode_label idt name hi hn]
+  rfl
+
+theorem not_start_prefix (idt rest : Str) (hi : IdOk idt) :
+    startsWith (lit "0((Start)) --> ") (idt ++ lit "{{" ++ rest) = false := by
+  obtain ⟨h1, h2⟩ := hi
+  cases idt with
+  | nil => exact absurd rfl h2
+  | cons c cs =>
+    cases cs with
+    | nil => simp [startsWith, lit, List.isPrefixOf]
+    | cons d ds =>
+      have hd : d ≠ '(' := by
+        intro e; subst e
+        rcases h1 '(' (by simp) with h | h
+        · revert h; decide
+        · revert h; decide
+      simp [startsWith, lit, List.isPrefixOf, Ne.symm hd]
+
+theorem readEdge_dep (ip np it nt : Str) (hip : IdOk ip) (hnp : NameOk np) (hit : IdOk it) (hnt : NameOk nt) :
+    readEdge (lit "  " ++ nodeLabel ip np ++ lit " --> " ++ nodeLabel it nt) =
+      some (.task ip (qname np), .task it (qname nt)) := by
+  have h1 : startsWith (lit "  ") (lit "  " ++ nodeLabel ip np ++ lit " --> " ++ nodeLabel it nt) = true := by
+    simp [startsWith, lit, List.isPrefixOf]
+  have h2 : (lit "  " ++ nodeLabel ip np ++ lit " --> " ++ nodeLabel it nt).drop 2 =
+      ip ++ lit "{{" ++ (qname np ++ lit "}} --> " ++ nodeLabel it nt) := by
+    simp [lit, nodeLabel_eq]
+  have h3 := not_start_prefix ip (qname np ++ lit "}} --> " ++ nodeLabel it nt) hip
+  have h4 : splitAt? (lit "}} --> ") (ip ++ lit "{{" ++ (qname np ++ lit "}} --> " ++ nodeLabel it nt)) =
+      some (ip ++ lit "{{" ++ qname np, nodeLabel it nt) := by
+    apply splitAt?_of_eq '}' (by simp) rfl
+    have := hip.notin '}' (by decide) (by decide)
+    have := hnp.qname.2.2
+    simp [lit, *]
+  have h5 : ip ++ lit "{{" ++ qname np ++ lit "}}" = nodeLabel ip np := by simp [nodeLabel_eq]
+  simp only [readEdge, h1, h2, h3, h4]
+  simp [-List.append_assoc, h5, readNode_label ip np hip hnp, readNode_label it nt hit hnt]
+
+theorem readEdge_flowchart : readEdge (lit "flowchart LR") = none := by decide
+
+theorem filterMap_readEdge_edgeLines (all : Nat → NTask) (hn : ∀ i, NameOk (all i).name) (hid : ∀ i, IdOk (all i).idText)
+    (i : Nat) : (edgeLines all i).filterMap readEdge =
+      (if (all i).preds.isEmpty then [(NNode.start, NNode.task (all i).idText (qname (all i).name))]
+       else (all i).preds.map (fun p => (NNode.task (all p).idText (qname (all p).name), NNode.task (all i).idText (qname (all i).name)))) := by
+  unfold edgeLines
+  split
+  · simp [readEdge_start _ _ (hid i) (hn i)]
+  · rw [List.filterMap_map]
+    generalize (all i).preds = ps
+    induction ps with
+    | nil => rfl
+    | cons p ps ih =>
+      rw [List.filterMap_cons, List.map_cons, ← ih]
+      simp only [Function.comp_apply]
+      rw [readEdge_dep _ _ _ _ (hid p) (hn p) (hid i) (hn i)]
+
+theorem edgeLines_oneLine (all : Nat → NTask) (hn : ∀ i, NameOk (all i).name) (hid : ∀ i, IdOk (all i).idText)
+    (i : Nat) : ∀ l ∈ edgeLines all i, '\n' ∉ l := by
+  intro l hl
+  unfold edgeLines at hl
+  split at hl
+  · simp at hl; subst hl
+    have := nodeLabel_oneLine _ _ (hid i) (hn i)
+    simp [lit, this]
+  · obtain ⟨p, _, rfl⟩ := List.mem_map.1 hl
+    have h1 := nodeLabel_oneLine _ _ (hid i) (hn i)
+    have h2 := nodeLabel_oneLine _ _ (hid p) (hn p)
+    simp [lit, h1, h2]
+
+theorem readNetwork_ok (all : Nat → NTask) (tasks : List Nat)
+    (hn : ∀ i, NameOk (all i).name) (hid : ∀ i, IdOk (all i).idText) (hst : ∀ i ∈ tasks, (all i).style = none) :
+    readNetwork (networkSrc all tasks) = expectedEdges all tasks := by
+  rw [networkSrc_eq all tasks hst, readNetwork, linesOf_withNl]
+  · rw [List.filterMap_cons, readEdge_flowchart]
+    simp only [expectedEdges]
+    clear hst
+    induction tasks with
+    | nil => rfl
+    | cons i ts ih =>
+      rw [List.flatMap_cons, List.filterMap_append, ih, List.flatMap_cons, filterMap_readEdge_edgeLines all hn hid i]
+      rfl
+  · intro l hl
+    rcases List.mem_cons.1 hl with rfl | hl
+    · decide
+    · obtain ⟨i, _, hl⟩ := List.mem_flatMap.1 hl
+      exact edgeLines_oneLine all hn hid i l hl
+
+/-! ### DHTMLX progress arithmetic -/
+
+theorem rat_div_unit (x e : Rat) (h0 : 0 ≤ x) (h1 : x ≤ e) (he : 0 < e) : 0 ≤ x / e ∧ x / e ≤ 1 := by
+  have hi : 0 < e⁻¹ := Rat.inv_pos.2 he
+  have h2 := Rat.mul_nonneg h0 (Rat.le_of_lt hi)
+  have h3 := Rat.mul_le_mul_of_nonneg_right h1 (Rat.le_of_lt hi)
+  have h4 : e * e⁻¹ = 1 := Rat.mul_inv_cancel e (by grind)
+  rw [Rat.div_def]
+  grind
+
 end Pj.Render
